@@ -170,7 +170,7 @@ Proof.
   - do 2 eexists. split; reflexivity.
   - inversion H; subst. unfold noderef in H2. rewrite H2.
     destruct (re_change (upd e)) as [log x new|x log].
-    + destruct (d && negb (is_sym new)).
+    + destruct (d && negb (is_sym new) && packable (name_of e)).
       * destruct (IH l H3) as [us' [l' [E L]]]. rewrite E. cbn [obind]. do 2 eexists. split; [reflexivity|cbn; lia].
       * destruct (IH (if logmode_eqb log AndRef && lock e then set_key (name_of e) new l else l) H3) as [us' [l' [E L]]].
         rewrite E. cbn [obind]. do 2 eexists. split; [reflexivity|cbn; lia].
